@@ -5,6 +5,7 @@ import (
 	"go/token"
 	"go/types"
 	"golang.org/x/tools/go/cfg"
+	"golang.org/x/tools/go/types/typeutil"
 	"sort"
 	"strings"
 
@@ -643,6 +644,31 @@ func c20Emitter(c *core.Ctx) {
 						for _, a := range ce.Args[1:] {
 							ue, isU := ast.Unparen(a).(*ast.UnaryExpr)
 							if !isU {
+								// the entry built by a novel private helper (extract-function): it contains the
+								// &eventEntry{…} literal and never returns nil
+								if hc, isHC := ast.Unparen(a).(*ast.CallExpr); isHC {
+									if f, _ := typeutil.Callee(info, hc).(*types.Func); f != nil && c.P.IsTransparent(f) {
+										if h := c.P.UnitOf(f); h != nil {
+											lits, nils := 0, 0
+											ast.Inspect(h.Body, func(nd ast.Node) bool {
+												if lit, isL := nd.(*ast.CompositeLit); isL && core.TypeName(h.Info().TypeOf(lit)) == "eventEntry" {
+													lits++
+												}
+												if rs, isR := nd.(*ast.ReturnStmt); isR {
+													for _, r := range rs.Results {
+														if core.IsNil(h.Info(), r) {
+															nils++
+														}
+													}
+												}
+												return true
+											})
+											if lits >= 1 && nils == 0 {
+												continue
+											}
+										}
+									}
+								}
 								// a field that holds the freshly allocated entry: `x.entry = &eventEntry{…}; append(…, x.entry)`
 								if fld := fieldOf(info, a); fld != "" {
 									fresh := false
@@ -741,33 +767,46 @@ func c20Emitter(c *core.Ctx) {
 			return true
 		})
 		nLit, okAll := 0, true
-		ast.Inspect(on.Body, func(x ast.Node) bool {
-			lit, ok := x.(*ast.CompositeLit)
-			if !ok || core.TypeName(info.TypeOf(lit)) != "oneTimeListener" {
-				return true
-			}
-			nLit++
-			// the guard is a value field of the per-listener object (atomic.Bool), or a pointer allocated in the loop
-			fresh := true
-			for _, el := range lit.Elts {
-				kv, isKV := el.(*ast.KeyValueExpr)
-				if !isKV {
-					continue
-				}
-				if id, isI := kv.Key.(*ast.Ident); !isI || id.Name != "fired" {
-					continue
-				}
-				fresh = false
-				v := on.Resolve(kv.Value)
-				if ue, isU := ast.Unparen(v).(*ast.UnaryExpr); isU && ue.Op == token.AND {
-					if cl, isC := ast.Unparen(ue.X).(*ast.CompositeLit); isC {
-						fresh = loop != nil && loop.Body.Pos() <= cl.Pos() && cl.End() <= loop.Body.End()
+		for _, hu := range on.WithHelpers() {
+			// where the construct runs in Once: its own position, or the position of the call of the helper it moved into
+			at := func(p token.Pos) token.Pos { return p }
+			if hu != on {
+				var site token.Pos
+				for _, cl := range on.Calls() {
+					if cl.Inlined == nil && cl.Callee != nil && c.P.UnitOf(cl.Callee) == hu {
+						site = cl.Pos()
 					}
 				}
+				at = func(token.Pos) token.Pos { return site }
 			}
-			okAll = okAll && fresh && loop != nil && loop.Body.Pos() <= lit.Pos() && lit.End() <= loop.Body.End()
-			return true
-		})
+			ast.Inspect(hu.Body, func(x ast.Node) bool {
+				lit, ok := x.(*ast.CompositeLit)
+				if !ok || core.TypeName(info.TypeOf(lit)) != "oneTimeListener" {
+					return true
+				}
+				nLit++
+				// the guard is a value field of the per-listener object (atomic.Bool), or a pointer allocated in the loop
+				fresh := true
+				for _, el := range lit.Elts {
+					kv, isKV := el.(*ast.KeyValueExpr)
+					if !isKV {
+						continue
+					}
+					if id, isI := kv.Key.(*ast.Ident); !isI || id.Name != "fired" {
+						continue
+					}
+					fresh = false
+					v := hu.Resolve(kv.Value)
+					if ue, isU := ast.Unparen(v).(*ast.UnaryExpr); isU && ue.Op == token.AND {
+						if cl, isC := ast.Unparen(ue.X).(*ast.CompositeLit); isC {
+							fresh = loop != nil && loop.Body.Pos() <= at(cl.Pos()) && at(cl.Pos()) <= loop.Body.End()
+						}
+					}
+				}
+				okAll = okAll && fresh && loop != nil && loop.Body.Pos() <= at(lit.Pos()) && at(lit.Pos()) <= loop.Body.End()
+				return true
+			})
+		}
 		// the guard field itself is not a shared pointer handed in from outside the loop
 		c.Check(R, "types.(*emmiter).Once/one-guard-per-listener", on.Pos(), nLit == 1 && okAll, "every listener of a Once call gets its own one-time guard, allocated in the per-listener loop (a shared guard lets only the first of them ever run)")
 	}
